@@ -277,6 +277,14 @@ def run(ctx: Ctx, tier: str) -> Result:
                 if any("plugins" in x for x in tgt):
                     res.fail(Finding("C14.D", f_.qname, c_, f_.loc(c_), "a plugin's shutdown modifies the list of plugins (`%s`) that Deep.shutdown is iterating: the plugin after it is "
                                      "skipped and never shut down" % norm(c_)[:60]))
+    # ... nor by shutdown itself while it walks it
+    for lp_ in t.nodes_in(shutdown, ast.For):
+        it_txt = norm(lp_.iter)
+        it_ex = set(ctx.expand.expand(lp_.iter, shutdown))
+        for c_ in [n for n in ast.walk(lp_) if isinstance(n, ast.Call) and isinstance(n.func, ast.Attribute) and n.func.attr in MUT]:
+            if norm(c_.func.value) == it_txt or (it_ex & set(ctx.expand.expand(c_.func.value, shutdown))):
+                res.fail(Finding("C14.D", shutdown.qname, c_, shutdown.loc(c_), "`%s` changes the list the loop `for %s in %s` is walking: the element after the current one is "
+                                 "skipped (every second plugin is never shut down)" % (norm(c_)[:60], norm(lp_.target), it_txt[:40])))
     flag_clear = [n for n in steps if isinstance(n, ast.Assign)]
     if flag_clear and all(isinstance(n.value, ast.Constant) and n.value.value is False for n in flag_clear):
         res.ok("C14.D", {"started cleared": shutdown.loc(flag_clear[-1])})
@@ -370,4 +378,7 @@ def run(ctx: Ctx, tier: str) -> Result:
         res.ok("C14.E", {"the poll path starts no timer or thread of its own (functions)": len(scope_)})
     from .common import borrow
     borrow(ctx, res, tier, "c09", ("C09.A", "C09.D"), "C14.AFTER", "after shutdown nothing is delivered: work offered to the closed handler is refused, never run in place")
+    borrow(ctx, res, tier, "c12", ("C12.LOOP",), "C14.START", "start completes whatever the first poll does: a failure there that escapes start() leaves the hooks installed with "
+           "`started` false, and shutdown then puts nothing back")
+    borrow(ctx, res, tier, "c09", ("C09.E",), "C14.DRAIN", "what shutdown drains is this agent's own pending work (per-handler bookkeeping)")
     return res
